@@ -232,7 +232,8 @@ def generate(name, expanded_src=None):
                 e.spec_sha = rsx.sha(rsx.norm(e.spec))
                 ret = e.opts.get('ret')
                 rename = e.opts.get('as')
-                text, _ = rsx.normalise_fn(raw, cfg, rename=rename, ret_name=ret)
+                vis = '' if ' for ' in (' ' + e.impl + ' ') and e.impl not in ('-', '') else 'pub '
+                text, _ = rsx.normalise_fn(raw, cfg, rename=rename, ret_name=ret, vis=vis)
                 if e.trusted:
                     # signature + spec only; body replaced by unimplemented!()
                     toks = rsx.tokenize(text)
@@ -251,7 +252,7 @@ def generate(name, expanded_src=None):
                     woven = rsx.weave(text, spec=e.spec if e.spec.strip() else None, hints=e.hints)
                     # erasure check
                     got = rsx.erase_tokens(woven)
-                    want_toks = rsx.source_tokens(raw, cfg, rename=rename, ret_name=ret)
+                    want_toks = rsx.source_tokens(raw, cfg, rename=rename, ret_name=ret, vis=vis)
                     if got != want_toks:
                         u.erasure_ok = False
                         # find first difference
